@@ -1,5 +1,5 @@
 \* exhaustive, database focus: write / load / loadReadOnly / copies, block > component + 6 pool ids (quick)
-CONSTANTS N = 8  Par = {"p", "q"}  NVal = 2  NGrid = 2  MaxDepth = 1  MaxLevel = 6
+CONSTANTS N = 8  Par = {"p", "q"}  NVal = 2  NGrid = 2  MaxDepth = 1  MaxLevel = 5
           GridSlot = "stack"  PickleSerial = "fresh"  DbSerial = "max"
 CONSTANTS Keeps <- KeepsNone  Acts <- ActsDb  Parent0 <- ParentD  Cls0 <- ClsD
           ParOf <- McParOf  GridCls <- McGridCls  MatCls <- McMatCls
